@@ -109,27 +109,29 @@ Proof. destruct e, u, l; reflexivity. Qed.
 
 (* ---- response side *)
 Definition pabs (s : pstate) : pspec :=
-  {| q_text := p_text s; q_data := p_data s; q_media := p_media s |}.
+  {| q_text := p_text s; q_data := p_data s; q_media := p_media s;
+     q_fixed := option_map snd (p_rendered s); q_muts := p_muts s |}.
 
-(* a cached rendering always belongs to the current media *)
+(* a cached rendering always belongs to the current media object *)
 Definition pinv (s : pstate) : Prop :=
-  forall r, p_rendered s = Some r -> p_media s = Some r.
+  forall x v, p_rendered s = Some (x, v) -> p_media s = Some x.
 
 Lemma pstep_refines s o :
   pinv s -> let '(s1, b) := pstep s o in
             pinv s1 /\ qstep (pabs s) o = (pabs s1, b).
 Proof.
-  intro I. destruct o as [v|t|d|]; cbn.
-  - split; [intros r H; discriminate | reflexivity].
+  intro I. destruct o as [v|t|d| |x]; cbn.
+  - split; [intros x w H; discriminate | reflexivity].
   - split; [exact I | reflexivity].
   - split; [exact I | reflexivity].
   - unfold pabs. destruct (p_text s) eqn:T; cbn; [split; [exact I|rewrite T; reflexivity]|].
     destruct (p_data s) eqn:D; cbn; [split; [exact I|rewrite T, D; reflexivity]|].
-    destruct (p_media s) as [v|] eqn:M; cbn; [|split; [exact I|rewrite T, D, M; reflexivity]].
-    destruct (p_rendered s) as [r|] eqn:R; cbn.
-    + split; [exact I|]. rewrite T, D, M. specialize (I r R). rewrite M in I.
+    destruct (p_media s) as [x|] eqn:M; cbn; [|split; [exact I|rewrite T, D, M; reflexivity]].
+    destruct (p_rendered s) as [[x' v']|] eqn:R; cbn.
+    + split; [exact I|]. rewrite T, D, M, R. cbn. specialize (I x' v' R). rewrite M in I.
       injection I as ->. reflexivity.
-    + split; [intros r H; injection H as <-; reflexivity|]. reflexivity.
+    + split; [intros y w H; injection H as <- <-; reflexivity|]. reflexivity.
+  - split; [exact I | reflexivity].
 Qed.
 
 Lemma prun_refines s ops : pinv s -> snd (prun s ops) = qrun (pabs s) ops.
@@ -140,8 +142,55 @@ Proof.
   destruct (prun s1 tl) as [s2 bs]. simpl in *. rewrite IH. reflexivity.
 Qed.
 
+(* the _media_rendered cache is transparent w.r.t. the reading of Spec.v, for every sequence of
+   assignments, renders and in-place amendments *)
 Theorem render_cache_transparent ops : snd (prun pinit ops) = qrun qinit ops.
-Proof. apply (prun_refines pinit ops). intros r H. discriminate. Qed.
+Proof. apply (prun_refines pinit ops). intros x v H. discriminate. Qed.
+
+(* an assignment ALWAYS invalidates: from any state, assigning an object (the same one or another)
+   and rendering serializes the content the object has now *)
+Theorem reassign_renders_current s x :
+  p_text s = None -> p_data s = None ->
+  snd (pstep (fst (pstep s (SetMedia (Some x)))) Render) = Some (BMedia x (version (p_muts s) x)).
+Proof. intros T D. cbn. rewrite T, D. reflexivity. Qed.
+
+(* an in-place amendment WITHOUT a new assignment does not change the body (by design) *)
+Theorem mutate_keeps_rendering s x :
+  let s1 := fst (pstep s Render) in
+  snd (pstep (fst (pstep s1 (Mutate x))) Render) = snd (pstep s Render).
+Proof.
+  cbn. destruct (p_text s) eqn:T; cbn; [rewrite T; reflexivity|].
+  destruct (p_data s) eqn:D; cbn; [rewrite T, D; reflexivity|].
+  destruct (p_media s) as [y|] eqn:M; cbn; [|rewrite T, D, M; reflexivity].
+  destruct (p_rendered s) as [[y' v']|] eqn:R; cbn; [rewrite T, D, M, R; reflexivity | reflexivity].
+Qed.
+
+(* the content version the model uses is the number of amendments in the history *)
+Definition mutations_of (ops : list rop) (x : nat) : nat :=
+  length (filter (fun o => match o with Mutate y => Nat.eqb x y | _ => false end) ops).
+
+Lemma pstep_muts s o x :
+  version (p_muts (fst (pstep s o))) x =
+  version (p_muts s) x + match o with Mutate y => if Nat.eqb x y then 1 else 0 | _ => 0 end.
+Proof.
+  destruct o as [v|t|d| |y]; cbn; rewrite ?Nat.add_0_r; try reflexivity.
+  - destruct (p_text s); cbn; [reflexivity|]. destruct (p_data s); cbn; [reflexivity|].
+    destruct (p_media s); cbn; [|reflexivity]. destruct (p_rendered s) as [[? ?]|]; cbn; reflexivity.
+  - unfold version. cbn [filter]. destruct (Nat.eqb x y); cbn [length]; lia.
+Qed.
+
+Lemma prun_muts ops : forall s x,
+  version (p_muts (fst (prun s ops))) x = version (p_muts s) x + mutations_of ops x.
+Proof.
+  induction ops as [|o tl IH]; intros s x; simpl; [unfold mutations_of; simpl; lia|].
+  pose proof (pstep_muts s o x) as P. destruct (pstep s o) as [s1 b]. simpl in P.
+  specialize (IH s1 x). destruct (prun s1 tl) as [s2 bs]. simpl in *. rewrite IH, P.
+  unfold mutations_of. simpl. destruct o as [| | | |y]; simpl; try lia. destruct (Nat.eqb x y); simpl; lia.
+Qed.
+
+Theorem version_is_mutation_count ops x :
+  version (p_muts (fst (prun pinit ops))) x = mutations_of ops x.
+Proof. rewrite prun_muts. reflexivity. Qed.
 
 Definition pending (s : pstate) : nat :=
   match p_rendered s, p_media s with None, Some _ => 1 | _, _ => 0 end.
@@ -152,13 +201,14 @@ Lemma pstep_count s o n :
   length (p_serializations s1) + pending s1 <=
   n + match o with SetMedia _ => 1 | _ => 0 end.
 Proof.
-  intro H. unfold pending in *. destruct o as [v|t|d|]; cbn.
+  intro H. unfold pending in *. destruct o as [v|t|d| |x]; cbn.
   - destruct v; destruct (p_rendered s); destruct (p_media s); cbn in *; lia.
   - lia.
   - lia.
   - destruct (p_text s); cbn; [lia|]. destruct (p_data s); cbn; [lia|].
     destruct (p_media s) eqn:M; cbn; [|try rewrite M; lia].
-    destruct (p_rendered s) eqn:R; cbn; [try rewrite R; try rewrite M; lia | lia].
+    destruct (p_rendered s) as [[? ?]|] eqn:R; cbn; [try rewrite R; try rewrite M; lia | lia].
+  - lia.
 Qed.
 
 Lemma prun_count s ops n :
